@@ -14,7 +14,8 @@ RULE = ("samples of 1-12 trees over 3-8 taxa (namespace sometimes with a hole = 
         "that majority splits exist, rooted / unrooted / unspecified rooting (rarely mixed), polytomies and unary nodes, dyadic / zero / "
         "None lengths, tree weights None / 1 / dyadic / all zero, use_tree_weights on and off, thresholds {None, 0, 1/4, 1/2, "
         "GREATER_THAN_HALF, 5/8, 3/4, 1} plus ATTAINABLE frequencies k/n (n trees, n in {3,5,6,7,9,...,15,49,98,103,107}, unit weights, handed over "
-        "as float(k)/n and judged by the integer comparison count >= k; oracle only); unanimous splits must be reported as exactly 1.0; targets from the sample or perturbed; support as fraction / percentage / label; every case is a "
+        "as float(k)/n and judged by the integer comparison count >= k; oracle only); unanimous splits must be reported as exactly 1.0; targets from the sample or perturbed; support as fraction / percentage / label; samples ASSEMBLED by TreeArray merges (a + b, +=, update, extend) "
+        "whose operands are kept, grown, and judged like the result; every case is a "
         "self-contained description (tokens of every tree) that `--replay` re-runs; non-trivial = at least two distinct topologies")
 MODELLED_NOT_VERIFIED = [
     "C05: the Lean model (Model/C05.lean on C01/C04) is hand-written from SplitDistribution.count_splits_on_tree / calc_freqs / consensus_tree, "
@@ -1039,9 +1040,212 @@ def gen_attain(ctx, dendropy):
     return dict(sample_case(tns, trees, use_w, thr, False), op="collapse", target=tree_rec(tgt))
 
 
+# ------------------------------------------------------------------ samples ASSEMBLED by merges; every collection involved is judged
+def gen_merge(ctx, dendropy):
+    """two or three groups of trees over one namespace go into TreeArrays that are merged (a + b, a += b, update, extend), the
+    operands are KEPT and some of them grown afterwards; after every step each collection alive is judged, from scratch, against
+    exactly the trees it was given"""
+    rng = ctx.rng
+    ages = rng.random() < 0.4
+    if ages:
+        n = rng.randint(3, 6)
+        tns = tu.make_namespace(dendropy, n)
+        base_shape = tu.rand_shape(rng, n, p_poly=0.0, p_unary=0.0)
+        trees = [ultrametric_on(dendropy, rng, tns, list(tns), base_shape if rng.random() < 0.6 else None) for _ in range(rng.randint(3, 9))]
+        use_w = rng.random() < 0.5
+        if use_w:
+            for t in trees:
+                t.weight = rng.choice([0.5, 1.0, 2.0])
+    else:
+        tns, trees = gen_sample(dendropy, rng, ctx)
+        Fmask = members_mask(tns)
+        if len(trees) < 3 or len({t.is_rooted for t in trees}) != 1 or any(basal_split(t) is not None for t in trees) \
+                or any(tu.leafset_masks(t)[id(t.seed_node)] != Fmask for t in trees):
+            return None
+        use_w = rng.random() < 0.5
+    k = len(trees)
+    idx = list(range(k))
+    rng.shuffle(idx)
+    c1 = rng.randint(1, k - 2)
+    c2 = rng.randint(c1 + 1, k - 1)
+    A, B, C = idx[:c1], idx[c1:c2], idx[c2:]
+    script = [["new", "a", A], ["new", "b", B]]
+    kind = rng.choice(["+", "+", "+=", "update", "extend"])
+    if kind == "+":
+        script.append(["merge", "+", "c", "a", "b"])
+    else:
+        x, y = rng.choice([("a", "b"), ("b", "a")])
+        script.append(["merge", kind, x, x, y])
+    script.append(["check"])
+    names = ["a", "b"] + (["c"] if kind == "+" else [])
+    half = max(1, len(C) // 2)
+    script.append(["add", rng.choice(names), C[:half]])
+    script.append(["check"])
+    if C[half:]:
+        if rng.random() < 0.5:
+            x, y = rng.sample(names, 2)
+            script.append(["merge", rng.choice(["+=", "update", "extend"]), x, x, y])
+            script.append(["add", y, C[half:]])
+        else:
+            script.append(["add", rng.choice(names), C[half:]])
+        script.append(["check"])
+    thr = rng.choice(["GTH", 0.625, 0.75, 1.0])
+    return dict(sample_case(tns, trees, use_w, thr, False), op="merge", ages=ages, script=script,
+                target_index=rng.randrange(k))
+
+
+def judge_collection(ctx, dendropy, case, tns, ta, recs_idx, trees, label, pending):
+    """every clause of the statement on ONE collection, against the trees it was given (`trees`, in the order given)"""
+    use_w, thr, ages = case["use_weights"], case["threshold"], case["ages"]
+    thr_v, thr_f = thr_value(dendropy, thr), thr_exact(dendropy, thr)
+    fr, _ = oracle_freqs(trees, use_w)
+    members = [tns.accession_index(t) for t in tns]
+    F, Fmask = set(members), members_mask(tns)
+    crooted = all(t.is_rooted is True for t in trees)
+    d = ta.split_distribution
+    got = {s: d[s] for s in d}
+    if len(ta) != len(trees):
+        ctx.fail("merge", "%s holds %d trees, it was given %d" % (label, len(ta), len(trees)), case)
+        return
+    if set(got) != set(fr):
+        ctx.fail("frequency", "%s reports splits %s that differ from those of the trees it was given" % (label, sorted(set(got) ^ set(fr))[:6]), case)
+        return
+    for s, f in fr.items():
+        if not close(got[s], float(f), 1e-12) or (f == 1 and got[s] != 1.0):
+            ctx.fail("frequency", "%s[%d] = %r, weighted fraction of its trees containing it = %s" % (label, s, got[s], f), case)
+            return
+    lens, age = {}, {}
+    for t in trees:
+        for s, l in c04.split_lengths(t).items():
+            lens.setdefault(s, []).append(l)
+        if ages:
+            masks = tu.leafset_masks(t)
+            for nd in tu.walk(t.seed_node):
+                age.setdefault(masks[id(nd)], []).append(tip_age(nd))
+
+    def annotations_ok(tree, what):
+        for nd, s in node_splits(tree)[0]:
+            want = fr.get(s, Fraction(0))
+            sup = getattr(nd, "support", None)
+            if sup is None or not close(sup, float(want), 1e-12):
+                ctx.fail("support", "%s, %s: node of split %d carries support %r, frequency over the trees of this collection is %s" % (label, what, s, sup, want), case)
+                return False
+            if s in lens:
+                prob = summary_problem(nd.edge, "length_", lens[s])
+                if prob:
+                    ctx.fail("summary", "%s, %s: edge of split %d: %s (values over the %d trees this collection was given)" % (label, what, s, prob, len(trees)), case)
+                    return False
+            if ages and s in age:
+                prob = summary_problem(nd, "age_", age[s])
+                if prob:
+                    ctx.fail("summary", "%s, %s: node of split %d: age %s (ages over the %d trees this collection was given)" % (label, what, s, prob, len(trees)), case)
+                    return False
+        return True
+    tgt = tree_of_rec(dendropy, case["trees"][case["target_index"] % len(case["trees"])], tns)[0]
+    ta.summarize_splits_on_tree(tgt)
+    if not annotations_ok(tgt, "summarize_splits_on_tree"):
+        return
+    con = ta.consensus_tree(min_freq=thr_v)
+    probs = tu.arborescence_problems(con)
+    tips = [nd for nd in tu.walk(con.seed_node) if not nd._child_nodes]
+    if probs or sorted(tns.accession_index(nd.taxon) for nd in tips if nd.taxon is not None) != sorted(members) or any(nd.taxon is None for nd in tips):
+        ctx.fail("consensus", "%s: consensus tree malformed or not spanning the namespace: %s" % (label, probs), case)
+        return
+    if bool(con.is_rooted) != crooted:
+        ctx.fail("consensus", "%s: consensus has rooting %s, its trees are %s" % (label, con.is_rooted, "rooted" if crooted else "not rooted"), case)
+    if not annotations_ok(con, "consensus_tree"):
+        return
+    cand = {canon_split(s, Fmask, crooted) for s, f in fr.items() if f >= thr_f}
+    cand = {c for c in cand if nontrivial(c, F, crooted)}
+    have = {canon_split(m, Fmask, crooted) for m in tu.leafset_masks(con).values()}
+    have = {c for c in have if nontrivial(c, F, crooted)}
+    if thr_f > Fraction(1, 2):
+        if have != cand:
+            ctx.fail("consensus", "%s: consensus at threshold %s has non-trivial splits %s, those with frequency >= threshold over its trees are %s" % (
+                label, thr_label(thr), sorted(have), sorted(cand)), case)
+    elif not have <= cand or any(not compatible(x, y, F, crooted) for x in have for y in have) \
+            or any(all(compatible(c, r, F, crooted) for r in have) for c in cand - have):
+        ctx.fail("consensus", "%s: consensus at threshold %s with splits %s is not a maximal compatible subset of those reaching the threshold over its trees, %s" % (
+            label, thr_label(thr), sorted(have), sorted(cand)), case)
+    scores, idx = ta.calculate_log_product_of_split_supports()
+    if len(scores) != len(trees) or idx is None or scores[idx] != max(scores):
+        ctx.fail("mcc-argmax", "%s: reported maximiser %s does not attain the maximum of the reported scores %s" % (label, idx, scores), case)
+        return
+    best = ta.maximum_product_of_split_support_tree()
+    canon = c01.canon_rooted if best.is_rooted else c01.canon_unrooted
+    tops = argmax_set(scores)
+    if not any(canon(best) == canon(trees[i]) for i in tops):
+        ctx.fail("mcc-topology", "%s: maximum product-of-support tree has topology %s, its trees attaining the maximum score are %s" % (
+            label, canon(best), [canon(trees[i]) for i in tops]), case)
+    elif not annotations_ok(best, "maximum_product_of_split_support_tree"):
+        return
+    for i, t in enumerate(trees):
+        nsp, tl_mask = node_splits(t)
+        Ft = c01.bits_of(tl_mask)
+        sc = 0.0
+        for s in sorted({s for _nd, s in nsp}):
+            A = c01.bits_of(s) & Ft
+            if s == tl_mask or not (len(A) <= 1 or len(Ft - A) <= 1):
+                if fr.get(s):
+                    sc += math.log(float(fr[s]))
+        if not close(scores[i], sc, 1e-9):
+            ctx.fail("mcc-score", "%s: product-of-support score of its tree %d reported as %r, from the frequencies it is %r" % (label, i, scores[i], sc), case)
+            break
+    # correspondence: the model counts the trees this collection was given, one by one
+    sub = dict(case, trees=[case["trees"][i] for i in recs_idx])
+    line = "summ %d %s %d %d %d %s %d %s" % (use_w, tu.frac(thr_v), 0, tns.all_taxa_bitmask(), len(members), " ".join(map(str, members)),
+                                             len(trees), recs_line(sub))
+    impl = {"freqs": got, "scores": {}, "rootings": {trees[0].is_rooted}, "lens": {s: list(v) for s, v in d.split_edge_lengths.items()}}
+    pending.append((line, case, impl))
+
+
+def run_merge(ctx, dendropy, case, pending):
+    tns, trees = trees_of_case(dendropy, case)
+    use_w, ages = case["use_weights"], case["ages"]
+    ctx.case(["merge", stable_hash(case)], True, kind="merge")
+    cols, given = {}, {}
+
+    def new_array():
+        return dendropy.TreeArray(taxon_namespace=tns, use_tree_weights=use_w, ignore_node_ages=not ages)
+
+    def add(name, idxs):
+        for i in idxs:
+            c = c04.clone(dendropy, trees[i])
+            c.weight = trees[i].weight
+            cols[name].add_tree(c)
+            given[name].append(i)
+    for step in case["script"]:
+        if step[0] == "new":
+            cols[step[1]], given[step[1]] = new_array(), []
+            add(step[1], step[2])
+        elif step[0] == "add":
+            add(step[1], step[2])
+        elif step[0] == "merge":
+            _m, kind, dst, x, y = step
+            if kind == "+":
+                cols[dst] = cols[x] + cols[y]
+                given[dst] = given[x] + given[y]
+            else:
+                if kind == "+=":
+                    cols[x] += cols[y]
+                elif kind == "update":
+                    cols[x].update(cols[y])
+                else:
+                    cols[x].extend(cols[y])
+                given[x] = given[x] + given[y]
+        else:
+            for name in sorted(cols):
+                if given[name]:
+                    judge_collection(ctx, dendropy, case, tns, cols[name], given[name], [trees[i] for i in given[name]],
+                                     "collection %s (after %s)" % (name, " ; ".join(" ".join(map(str, st[:2])) for st in case["script"][:case["script"].index(step) + 1] if st[0] != "check")),
+                                     pending)
+
+
 # ------------------------------------------------------------------ dispatch
 def gen_case(ctx, dendropy, op):
     rng = ctx.rng
+    if op == "merge":
+        return gen_merge(ctx, dendropy)
     if op == "attain":
         return gen_attain(ctx, dendropy)
     if op == "summ":
@@ -1068,6 +1272,8 @@ def run_case(ctx, dendropy, case, pending, pending_c):
             run_incremental(ctx, dendropy, case, pending)
         elif op == "more":
             run_more(ctx, dendropy, case)
+        elif op == "merge":
+            run_merge(ctx, dendropy, case, pending)
         else:
             raise ValueError("unknown op %r" % (op,))
     except Exception as e:
@@ -1084,7 +1290,7 @@ def run(ctx):
     for _ in range(ctx.pick(1500, 30000)):
         if ctx.out_of_time():
             break
-        op = rng.choices(["summ", "collapse", "incremental", "more", "attain"], [0.42, 0.15, 0.15, 0.14, 0.14])[0]
+        op = rng.choices(["summ", "collapse", "incremental", "more", "attain", "merge"], [0.38, 0.13, 0.13, 0.12, 0.12, 0.12])[0]
         case = gen_case(ctx, dendropy, op)
         if case is None:
             continue
